@@ -112,10 +112,14 @@ def custom(ctx):
     reqs = [r for r in ctx.distinct if r.startswith("C01.fn\t") and r.split("\t")[2] != "-"]
     if reqs:
         ans = ctx.run_model(["C01.wt" + r[len("C01.fn"):] for r in reqs])
+        # "no-agree": well typed, but two variables of one function carry the same emitted name (the source shadows a name
+        # or re-uses it in a sibling block) — the flat name environment of the Lean C semantics (hypothesis `Agree`) does not
+        # cover block scoping; those programs are judged by the harness's two evaluators only (text side: scopes.rs)
         ctx.extra["theorem_hypotheses"] = {"requests": len(reqs), "wt": ans.count("wt"), "not_wt": ans.count("not-wt"),
+                                           "well_typed_but_names_not_flat": ans.count("no-agree"),
                                            "outside_model": ans.count("unsupported")}
         floor = 0.9
-        if ans.count("wt") < floor * max(1, len(reqs) - ans.count("unsupported")):
+        if ans.count("wt") < floor * max(1, len(reqs) - ans.count("unsupported") - ans.count("no-agree")):
             ctx.broken.append("coverage: fewer than 90% of the explored well-typed programs satisfy the theorems' hypotheses")
     # the same for the vector layer (hypotheses of gen_sem_vec_expr: VIr.typeOf + VIr.litOK)
     vreqs = [r for r in ctx.distinct if r.startswith("C01.vex\t") and r.split("\t")[2] != "-" and r.split("\t")[4] != "-"]
@@ -151,6 +155,18 @@ SEARCH_SOURCES = [
     "int f1(float a, float b) { int r = (a == a) ? 1 : 2; r += (a != b) ? 4 : 8; float m = (a < b) ? a : b; return r + ((m > b) ? 16 : 32); }\n",
     "int f1(float a, float b) { int r = 0; for (int i = 0; i < 3 && a <= b; ++i) { r += 1; } while (!(a > b) && r < 5) { r += 2; } return r; }\n",
     "int f1(float a, int k, uint u) { return (int)a + (int)(float)k + (int)(uint)a + (int)(float)u; }\n",
+    # names: a local the name map must rename (`pass`, `texture`, the name of a used function / global) next to a local that
+    # is literally called `<name>_<k>`, after earlier functions consumed `<name>_0 ..` (seeded mutant C01-4)
+    "int first(int x) { int pass = x + 1; return pass * 2; }\nint f1(int x) { int pass_1 = x; { int pass = 5; pass_1 += pass; } return pass_1; }\n",
+    "int c0(int texture) { return texture + 1; }\nint c1(int x) { int texture = x; return texture * 2; }\n"
+    "int f1(int texture_2, int y) { { int texture = y + 5; texture_2 += texture * 3; } return texture_2; }\n",
+    "static int gv = 11;\nint helper(int a) { return a * 2 + 1; }\nint user(int a) { return helper(a) + gv; }\n"
+    "int c0(int x) { int helper = x; return helper; }\n"
+    "int f1(int x, int y) { int helper_1 = x; int gv_0 = y; { int helper = y + 5; int gv = 3; helper_1 += helper * gv; } return helper_1 - gv_0 + user(x); }\n",
+    "int c0(int x) { int sampler = x; return sampler; }\n"
+    "int f1(int x, int y) { int sampler_1 = x; if (y > 0) { int sampler = y * 2; sampler_1 += sampler; } else { int sampler = 3 - y; sampler_1 -= sampler; } "
+    "for (int sampler = 0; sampler < 3; ++sampler) { sampler_1 += sampler; } return sampler_1; }\n",
+    "int f1(int x, int y) { int r = x; { int x = r + 1; r += x; { int x = 3; r *= x; } r -= x; } for (int x = 0; x < 2; ++x) { r += x + y; } return r + x; }\n",
 ]
 
 
@@ -163,10 +179,16 @@ def search(ctx):
     return out
 
 
+C01NAMES = ["agree_unsatisfiable_of_shared_name", "agree_unsatisfiable_of_shared_function_name", "agree_of_injective",
+            "assignLocals_class", "assignLocals_collision_free", "local_pass_collision_free",
+            "locals_with_distinct_sources_stay_distinct"]
+
+
 SPEC = {
     "id": "C01",
-    "gens": ["HlslGenTables", "HlslIntrinsicTables", "HlslVecTables", "FmtTables", "ParseTables"],
-    "lean_modules": ["RsslVerif.Thm.C01", "RsslVerif.Thm.C01Vec", "RsslVerif.Thm.C09"],
+    # Reserved: C15's translator (reserved words + the source fingerprints of NameMap::build, incl. the local-variable pass)
+    "gens": ["HlslGenTables", "HlslIntrinsicTables", "HlslVecTables", "FmtTables", "ParseTables", "Reserved"],
+    "lean_modules": ["RsslVerif.Thm.C01", "RsslVerif.Thm.C01Names", "RsslVerif.Thm.C01Vec", "RsslVerif.Thm.C09", "RsslVerif.Thm.C15"],
     "theorems": [T + n for n in [
         "op_table_is_identity", "op_table_injective", "intrinsic_table_is_identity", "exporter_shape_as_modelled",
         "literal_value_preserved", "literal_total", "literal_never_panics", "literal_int32_min",
@@ -183,7 +205,17 @@ SPEC = {
         "dropping_inner_shape_cast_changes_meaning", "vector_op_literal_in_concrete_type", "literal_vector_cast_panics"]] + [
         # the text leg (printing the exported tree and reading it back) is property C09's; its table obligations are
         # C01 obligations too: a change of the printer's precedence / associativity tables breaks them
-        "RsslVerif.Thm.C09." + n for n in ["tables_agree", "assoc_agrees", "roundtrip_expr_partial", "paren_rule_matches_grammar"]],
+        "RsslVerif.Thm.C09." + n for n in ["tables_agree", "assoc_agrees", "roundtrip_expr_partial", "paren_rule_matches_grammar"]] + [
+        # "every use refers to the entity it referred to in the source" (the hypothesis `Agree` of gen_sem_*) is property C15's
+        # conclusion about NameMap::build; its obligations are C01 obligations too: a change of the name map (seeded mutant
+        # C01-4: the local-variable pass hands out a name another local already has) breaks source_fingerprints and with it
+        # everything in Thm.C15, and C01 starts its witness search (SEARCH_SOURCES: renamed locals next to `name_k` locals)
+        "RsslVerif.Thm.C15." + n for n in [
+            "source_fingerprints", "reserved_complete", "never_reserved", "injective_per_scope", "verbatim",
+            "locals_apart_from_used", "scope_loop_terminates", "emitted_never_reserved", "emitted_injective_file_scope",
+            "flat_used_name_unique", "uses_resolve_to_same_entity"]] + [
+        # Thm/C01Names.lean: the local pass never gives two locals one name unless the source did, and what `Agree` needs
+        "RsslVerif.Thm.C01Names." + n for n in C01NAMES],
     "harness": "c01",
     "nontrivial": nontrivial,
     "finding_key": finding_key,
@@ -212,7 +244,17 @@ SPEC = {
             "attribute; ~1700 programs on a 16-vector grid with NaN on either / both sides, both zeros, infinities, subnormals, FLT_MAX; "
             "55 conversion / constant programs on the 32 float x 22 int edge values; vector: 10 component conditions x 28 forms on "
             "vectors with NaN components), the primitive stream C01.prim (the harness's comparisons and conversions against the "
-            "model's bit-level IEEE ones on ~70 x 70 edge / random patterns) and the corpus; argument vectors of all generated streams "
+            "model's bit-level IEEE ones on ~70 x 70 edge / random patterns), the name-hygiene stream (names.rs: 14 names the name map "
+            "must rename — 12 words reserved in HLSL that RSSL accepts as identifiers (pass, texture, sampler, string, technique, vector, "
+            "matrix, abs, min, lerp, dot, select), a used function, a used static global — x 13 shapes (the renamed name in an inner block / "
+            "outer block / parameter / for-initialiser / both branches of if-else / loop body / sibling blocks / a three-level shadowing "
+            "chain, next to a source local, parameter, function or static global literally called <name>_<k>, the function called / the global read and written while the renamed local is in scope) x 0..2 earlier functions whose own local or "
+            "parameter consumes <name>_0, <name>_1 x k = 0..2: 780 programs on 5 argument vectors; then 200 (thorough 3000) random modules "
+            "of 2..4 functions whose parameters, block locals and for-variables are drawn from one pool {two reserved words, their _0 _1 _2 "
+            "_1_0 forms, helper, helper_0, helper_1, gv, gv_0, user_0, two plain names} with shadowing and re-use in sibling blocks; the text "
+            "evaluator resolves every identifier of the re-parsed output by C block scoping (scopes.rs: innermost declaration; two "
+            "declarations of a name in one scope, a dangling identifier or a call captured by a local are failures), the IR evaluator goes by "
+            "variable ids) and the corpus; argument vectors of all generated streams "
             "draw floats from NaNs (quiet, signalling, negative, full payload), both zeros, infinities, subnormals, FLT_MIN / FLT_MAX, the "
             "conversion limits around 2^24 / 2^31 / 2^32, and ints from 0, +-1, INT_MIN(+1), INT_MAX, UINT_MAX(-1), 31 / 32 / 33, rounding "
             "boundaries; the second vector of every function has NaN in every float parameter; statement attributes are evaluated through "
@@ -259,7 +301,19 @@ SPEC = {
                   "panics on a modelled constant, an IntLiteral beyond +-u64::MAX is the export error IntLiteralOutOfRange since fix "
                   "6017bad (literal_never_panics); "
                   "printing/parsing of the tree is C09's (cited obligations tables_agree, assoc_agrees, paren_rule_matches_grammar, "
-                  "roundtrip_expr_partial; composed informally), name hygiene C15's.",
+                  "roundtrip_expr_partial; composed informally). Names: the hypothesis Agree of gen_sem_* (every emitted name denotes the "
+                  "IR's entity) is C15's conclusion; C15's obligations (Gen.Reserved incl. the source fingerprints of the local-variable "
+                  "pass, source_fingerprints, never_reserved, injective_per_scope, verbatim, locals_apart_from_used, the emitted_* lifts, "
+                  "uses_resolve_to_same_entity) are cited as C01 obligations, and Thm/C01Names proves about C15's model of NameMap::build, for "
+                  "every module and reserved list, that two local variables are printed with one name only if both kept the same source name "
+                  "(assignLocals_collision_free, local_pass_collision_free, locals_with_distinct_sources_stay_distinct: a generated name "
+                  "never meets another local — the clause seeded mutant C01-4 falsifies), that a name shared by two variables or two "
+                  "functions makes Agree unsatisfiable for every environment (agree_unsatisfiable_of_shared_name / _function_name), and that "
+                  "an injective assignment whose function names avoid the modelled built-ins satisfies it (agree_of_injective). Not closed in "
+                  "Lean: the identification of a request's Ctx with Model.Names.build's result (tied by C15's correspondence stream and by "
+                  "C01's tree comparison, which includes every printed name), and block scoping — the Lean C semantics has one flat name "
+                  "environment per function, so programs whose source shadows a name or re-uses it in a sibling block (both kept verbatim) are "
+                  "outside the theorems (counted: well_typed_but_names_not_flat) and judged by the harness's two evaluators only.",
     "trusted_base": [
         "Lean 4.33 kernel; axioms propext / Classical.choice / Quot.sound only (audited by #print axioms)",
         "tools/gens/c01.py (HlslGenTables: IntrinsicOp / UnaryOp / BinOp / Literal / Constant variants, generate_intrinsic_op's form "
@@ -282,7 +336,12 @@ SPEC = {
         "evaluators and the Lean model see the statement without them; the harness checks that the exporter keeps them in place",
         "for the forms outside the Lean models (C01.vfn): harness/src/c01/virev.rs and vtxev.rs (two Rust evaluators written from the "
         "IR's and HLSL's rules respectively) and the value generator; a wrong reading shared by both would be invisible",
-        "names: the emitted identifiers denote the IR's entities (property C15); printing/parsing of the tree (property C09)",
+        "names: the emitted identifiers denote the IR's entities (property C15, obligations cited; Thm/C01Names for the local pass); "
+        "the harness builds the request's name context with NameMap::build(module, RESERVED_NAMES of hlsl/src/names.rs read from the "
+        "source tree, true) as GenerateContext::new does — a different call would show as a tree disagreement; "
+        "harness/src/c01/scopes.rs: C / HLSL block scoping of the re-parsed text (parameters share the outermost block's scope, a for "
+        "statement's init-declaration shares the outermost block of its body, an initialiser is resolved before its declarator's name "
+        "exists — rssl's reading; `int y = y + 2;` under shadowing is never generated); printing/parsing of the tree (property C09)",
     ],
     "assumptions": [
         "float arithmetic, the six float comparisons (independent of each other: no order axioms), int<->float conversions, integer "
